@@ -56,6 +56,8 @@ func TestC06(t *testing.T) {
 	scfg.MaxRounds = 3
 	scfg.Crashes = 2
 	scfg.Faults = 1
+	scfg.ReadFaults = 1
+	scfg.Cancels = 2
 	scfg.Choices = 200
 	enumerated := 0
 	runProp(t, c, func(rt *rapid.T) {
